@@ -34,7 +34,7 @@ def call_msg(c):
 
 
 def run_one(sc, prefix=(), seed=0, keep=False):
-    nsc = {'dll': DLL, 'base_lat': 1e-3, 'wake_grid': sc.get('wake_grid'),
+    nsc = {'dll': DLL, 'base_lat': 1e-3, 'wake_grid': sc.get('wake_grid'), 'send_cost': sc.get('send_cost', 0.0),
            'stacks': [{'name': 'A', 'cas': [A_], 'win': 1}, {'name': 'B', 'cas': [B_], 'win': 1}, {'name': 'C', 'cas': [C_], 'win': 1}]}
     net = Net(nsc, prefix)
     try:
@@ -92,7 +92,7 @@ def run_one(sc, prefix=(), seed=0, keep=False):
                     probs.append("C-PG header with TOS %d / trailer format %d" % (tos, tf))
                 groups.append([f.t, fmt, dest, cpgn, pl, False])
         # ---- match submitted groups
-        lam = max(sc.get('wake_grid') or [50e-6]) + 2e-4
+        lam = max(sc.get('wake_grid') or [50e-6]) + 2e-4 + 2 * sc.get('send_cost', 0.0)
         for (m, r, _b0, _b1, data) in net.sent:
             fb = m.get('ff', 3) == 2
             if fb and m['kind'] == 'p2p':
@@ -208,6 +208,15 @@ def scenarios(tier):
                         if pre:
                             sc['pre'] = pre
                         out.append((sc, 1))
+    # (v) blocking driver: the second group is submitted while the job thread is inside the send call that puts the
+    #     first group's frame on the bus (and just before / after it)
+    for cost in (0.3e-3, 2e-3):
+        for (l1, l2) in ((8, 8), (28, 28), (28, 29), (60, 1)):
+            for tl1 in (0.010, 0.050):
+                for tl2 in LIMITS[1:]:
+                    for frac in (-0.3, 0.1, 0.5, 0.9, 1.2):
+                        for tg in ('B', 'FB'):
+                            out.append(({'calls': [call(l1, tl1, tg), call(l2, tl2, tg, tl1 + 50e-6 + frac * cost)], 'send_cost': cost}, 0))
     for tl in LIMITS[1:]:
         for pre in (None, 'after_pass', 'timer_sooner', 'timer_later'):
             for via in ('app', 'timer'):
